@@ -82,6 +82,8 @@ func runVestScenarioOpts(c *fw.Case, profile string, families bool, props ...str
 		funds := sdk.NewCoins(sdk.NewCoin(vDenom, sdk.NewInt(1_000_000_000_000)), sdk.NewCoin("foo", sdk.NewInt(1_000_000_000)))
 		if err := e.n.App.BankKeeper.SendCoinsFromAccountToModule(e.n.Ctx(), e.owners[0].Addr, govtypes.ModuleName, funds); err != nil {
 			e.govOwner = false
+		} else if err := e.n.App.BankKeeper.SendCoins(e.n.Ctx(), e.owners[0].Addr, e.longKey.Addr, funds); err != nil {
+			e.govOwner = false
 		}
 	}
 	var descs []string
